@@ -8,6 +8,7 @@ Model side: Gen/DriverVerify.lean (translated from driver.py on every run) execu
 Model/PyExec.lean, plus Model/Driver.lean (command log + software timers).
 """
 import math
+import sys
 
 from harness.common import leanproc
 from harness.common.vmachine import VMachine, BootError
@@ -207,7 +208,11 @@ class Run:
 
         def wrap(name, f):
             def g(*a, **k):
-                log.append([name, round(vm.now() * 1000), [list(x) if isinstance(x, tuple) else x for x in a], self.cur])
+                # the immediate caller tells a software-timed pulse (_pulse_now) from a permanent enable (_enable_now),
+                # also when the call is a PSU-delayed callback running inside some later op
+                caller = sys._getframe(1).f_code.co_name
+                log.append([name, round(vm.now() * 1000), [list(x) if isinstance(x, tuple) else x for x in a],
+                            "pulse" if caller == "_pulse_now" else self.cur if caller != "_enable_now" else "enable"])
                 return f(*a, **k)
             return g
         for n in ("pulse", "enable", "timed_enable", "disable"):
@@ -287,13 +292,20 @@ class Run:
             elif kind == "autofire":
                 m.events.post("af_on" if op[1] == "enable" else "af_off")
                 self.vm.run()
+            elif kind == "enable_wait":
+                c.enable(max_wait_ms=op[1])          # PSU-delayed enable (same path as EnableCoilEjector)
+                self.vm.run()
+            elif kind == "pulse_wait":
+                c.pulse(pulse_ms=op[1], max_wait_ms=op[2])
+                self.vm.run()
             elif kind == "setvar":
                 m.variables.set_machine_var("kick", op[1])
                 for _ in range(4):      # the template's subscription future and its done-callback need a few loop turns
                     self.vm.run()
             return "ok"
         except BaseException as e:  # a refusal (or a crash) - the machine may be unusable afterwards
-            self.dead = kind not in ("pulse", "enable", "timed_enable", "disable") or op[1] != "api"
+            self.dead = kind not in ("pulse", "enable", "timed_enable", "disable", "enable_wait", "pulse_wait") or \
+                (kind in ("pulse", "enable", "timed_enable", "disable") and op[1] != "api")
             if not self.dead:
                 try:
                     self.vm.run()
@@ -440,12 +452,15 @@ def unpv(t):
     raise ValueError(t)
 
 
+NOSRC = ("advance", "setvar", "enable_wait", "pulse_wait")      # ops without an api/event source field
+
+
 def tok_op(op):
-    return [op[0]] + [x if (i == 0 and op[0] not in ("advance", "setvar") and isinstance(x, str)) else pv(x) for i, x in enumerate(op[1:])]
+    return [op[0]] + [x if (i == 0 and op[0] not in NOSRC and isinstance(x, str)) else pv(x) for i, x in enumerate(op[1:])]
 
 
 def untok_op(t):
-    return [t[0]] + [x if (i == 0 and t[0] not in ("advance", "setvar")) else unpv(x) for i, x in enumerate(t[1:])]
+    return [t[0]] + [x if (i == 0 and t[0] not in NOSRC) else unpv(x) for i, x in enumerate(t[1:])]
 
 
 def run_case(ctx, cfg, player, af, ops, model, r, sample=True):
@@ -470,8 +485,8 @@ def run_case(ctx, cfg, player, af, ops, model, r, sample=True):
             results.append(res)
             ctx.count("op_" + op[0])
             ctx.count("res_" + res.split(":")[0])
-            if op[0] in ("player", "autofire"):
-                synced = False       # coil_player / autofire glue is not in the Driver model: oracle only from here on
+            if op[0] in ("player", "autofire", "enable_wait", "pulse_wait"):
+                synced = False       # coil_player / autofire glue and PSU waits are not in the Driver model: oracle only from here on
             if op[0] == "setvar":
                 if model is not None and not run.dead:
                     model.ask("cfg " + cfg_tokens(run.coil))     # the templated default changed: new environment
@@ -551,6 +566,13 @@ def gen_timer_case(r):
             ops.append(["setvar", r.choice([5, 20, 40, 250, 500])])
         else:
             ops.append(["advance", r.choice([1, 1, 2, 2, 3, 4, 8])])
+    if r.random() < 0.35:
+        # PSU scenario: a pulse makes the power supply busy, the next request is delayed by the PSU, something else
+        # (a disable, another request) lands inside the wait
+        i = r.randint(0, len(ops))
+        ops[i:i] = [["pulse", "api", r.choice([50, 100, 200]), None],
+                    r.choice([["enable_wait", r.choice([100, 300, 1000])], ["pulse_wait", r.choice([20, 300]), 500]]),
+                    r.choice([["disable", "api"], ["disable", "event"], ["advance", 1], ["enable", "api", None, None, None]])]
     return cfg, gen_player(r), {}, ops
 
 
